@@ -40,7 +40,8 @@ def run_generic(ctx, ops, props, models, depth, nbeh_quick, nbeh_thorough, nworl
   for name, xml in models.items():
     import mujoco
 
-    nkey = (mujoco.MjModel.from_xml_string(xml) if xml.lstrip().startswith("<") else mujoco.MjModel.from_xml_path(xml)).nkey
+    x0 = xml[0] if isinstance(xml, (tuple, list)) else xml
+    nkey = (mujoco.MjModel.from_xml_string(x0) if x0.lstrip().startswith("<") else mujoco.MjModel.from_xml_path(x0)).nkey
     r = ctx.tlc("Gen_Pipeline", "Gen_Pipeline.cfg", gen=pipeline.gen_cfg(nworld, nkey, [0, 1, 2], depth + 1, ops, props=props),
                 workers=1, simulate=f"num={nbeh}", depth=depth, seed=(ctx.seed + len(work)) % (1 << 30), timeout=900)
     behs = r.emit("beh")
